@@ -135,7 +135,13 @@ def _check_case_in(ctx: Ctx, case: Dict[str, Any], suite: str, world):
         app = {}
         for (kd, d) in cur["states"][r]:
             app[gen.build_key(kd)] = gen.RecStateful(gen.build_tree(d))
-        Snapshot.take(ROOT, app, pg=pg, replicated=case["replicated"])
+        # ranks may pass different path strings: the library uses rank 0's (and says so); every write must still land
+        # under that one root
+        path = ROOT if (r == 0 or not case.get("per_rank_paths")) else f"{ROOT}_r{r}"
+        if case.get("async"):
+            Snapshot.async_take(path, app, pg=pg, replicated=case["replicated"]).wait()
+        else:
+            Snapshot.take(path, app, pg=pg, replicated=case["replicated"])
         return {k: flatten(v.sd, prefix=k)[1] for k, v in app.items()}
 
     if case.get("pre_states"):
@@ -416,7 +422,9 @@ def _gen_case(rng, keys, adversarial: bool) -> Dict[str, Any]:
         shared = st
     kn = sim.rand_knobs(rng)
     kn["budget"] = rng.choice([1, 50, 10 ** 9])
-    return {"world": W, "states": states, "replicated": replicated, "knobs": kn}
+    mode = rng.random()
+    return {"world": W, "states": states, "replicated": replicated, "knobs": kn,
+            "async": mode < 0.25, "per_rank_paths": W > 1 and 0.1 < mode < 0.4}
 
 
 CORPUS = [
